@@ -2,7 +2,7 @@
   The two layers that cut one delivery into several transfers before the session
   numbers them (C11, C01):
 
-  * `SenderLink::send_transfer_without_modifying_unsettled_map` (link/sender_link.rs)
+  * `SenderLink::link_transfers` (link/sender_link.rs)
     cuts at the peer's max-message-size;
   * `frames::amqp::split_transfer`, called by the session engine, cuts each of those
     at the frame size (`Amqp.Frame.sessionSplit`).
